@@ -27,7 +27,8 @@
 (*   dA  F1: the shared WinAnsi table itself     widths 500 600            *)
 (*       F2: CMap H, DW 1000 + W, ToUnicode (T, U)     F3: as F2 without   *)
 (*       ToUnicode                               /CS0 = 3 components       *)
-(*   dB  F1: WinAnsi + Differences [1 /Omega]    widths 700 600            *)
+(*   dB  F1: WinAnsi + Differences [2 /g1234 1 /Omega] (the first name has *)
+(*       no Unicode value: the code is REMOVED)  widths 700 600            *)
 (*       F2: CMap V (vertical)                   /CS0 = 1 component        *)
 (*   dC  F1: WinAnsi + ToUnicode (2 -> Y, with `/H usecmap`) widths 500 800*)
 (*       F2: CMap H, DW 400                      /CS0 not defined          *)
@@ -51,13 +52,17 @@
 (*   ADocOpen  APageStart  AInitColorSpacesCopy                            *)
 (*   AFontCacheHit  AFontMiss  AGetFontSpec  AGetObjParsed                 *)
 (*   ADecipherAllInPlace  ACopyDescendantSpec                              *)
-(*   AGetEncodingShared  AGetEncodingCopyOnWrite  AParseToUnicode          *)
+(*   AGetEncodingShared  AGetEncodingCopyOnWrite  ADifferencesAssign       *)
+(*   ADifferencesPop  AParseToUnicode                                      *)
 (*   ACMapCacheFill  ACMapCacheHit  AUMapCacheFill  AUMapCacheHit          *)
 (*   AResolveAllInPlace  AFontCacheFill  ARender                           *)
 (*   AUseCMapCopy  AAddCode2Cid                                            *)
 (*                                                                         *)
 (* DEVIATION SWITCHES (the dangerous alternatives; Dev = {} is the design):*)
 (*   EncodingNoCopy    get_encoding applies Differences to the shared table*)
+(*   EncodingLazyCopy  the copy is made only when a Differences entry      *)
+(*                     ASSIGNS a new value; a removal (glyph name without  *)
+(*                     Unicode value) that comes first hits the shared one *)
 (*   ColorSpaceNoCopy  csmap is PREDEFINED_COLORSPACE itself, not a copy   *)
 (*   UseCMapAlias      use_cmap aliases the cached table instead of copying*)
 (*   UMapKeyCoarse     the unicode-map cache keeps one writing mode only   *)
@@ -109,8 +114,14 @@ PristineUMapH == [k \in CIDs |-> "J" \o ToString(k) \o "h"]
 PristineUMapV == [k \in CIDs |-> "J" \o ToString(k) \o "v"]
 
 \* ------------------------------------------------------------------ the document pool
-Diff(d)     == [c \in Codes |-> IF d = "dB" /\ c = 1 THEN "Omega" ELSE ""]
-HasDiff(d)  == \E c \in Codes : Diff(d)[c] # ""
+\* /Differences in array order: <<code, glyph>>; the glyph "-" is a name without Unicode value (/g1234): it REMOVES the code
+\* from the table.  dB's array starts with such a name, before any entry that assigns something.
+DiffSeq(d)  == IF d = "dB" THEN << <<2, "-">>, <<1, "Omega">> >> ELSE <<>>
+HasDiff(d)  == DiffSeq(d) # <<>>
+\* a table entry "" means: the code is not in the table
+RECURSIVE ApplyDiffs(_, _)
+ApplyDiffs(t, q) == IF q = <<>> THEN t
+                    ELSE ApplyDiffs([t EXCEPT ![Head(q)[1]] = IF Head(q)[2] = "-" THEN "" ELSE Head(q)[2]], Tail(q))
 ToUni(d)    == [c \in Codes |-> IF d = "dC" /\ c = 2 THEN "Y" ELSE ""]
 UseNamed(d) == IF d = "dC" THEN "H" ELSE ""                      \* `/H usecmap` inside the ToUnicode stream
 Widths(d)   == [c \in Codes |-> IF d = "dA" THEN (IF c = 1 THEN 500 ELSE 600)
@@ -121,7 +132,7 @@ CIDWidths(d) == [c \in Codes |-> IF d = "dA" THEN (IF c = 1 THEN 500 ELSE 1000)
 CSOf(d)     == IF d = "dA" THEN 3 ELSE IF d = "dB" THEN 1 ELSE 0   \* components of /CS0; 0: the document does not define it
 Encrypted(d) == d = "dC"
 NamesOf(d)  == <<"F1", "F2", "VerifSans", "WinAnsiEncoding", CMapOf(d)>>
-                 \o (IF d = "dB" THEN <<"Differences", "Omega">> ELSE <<>>) \o (IF d = "dC" THEN <<"ToUnicode", "Encrypt">> ELSE <<>>)
+                 \o (IF d = "dB" THEN <<"Differences", "g1234", "Omega">> ELSE <<>>) \o (IF d = "dC" THEN <<"ToUnicode", "Encrypt">> ELSE <<>>)
                  \o (IF CSOf(d) # 0 THEN <<"CS0", "ICCBased">> ELSE <<>>)
 \* ToUnicode of the Type0 font object o (dA: F2 only - F3 shares the descendant but has none)
 ToUni0(d, o) == [c \in Codes |-> IF d = "dA" /\ o = 6 THEN (IF c = 1 THEN "T" ELSE "U") ELSE ""]
@@ -134,7 +145,8 @@ HasTie(d, p)    == d = "dB" /\ p = 1      \* text boxes at pairwise equal distan
 \* ------------------------------------------------------------------ reference semantics: what a fresh process returns
 UText(tab, cid) == IF cid \in CIDs THEN tab[cid] ELSE "cid?"
 RefGlyph(d, o, c) ==
-  IF o = 5 THEN [text |-> IF ToUni(d)[c] # "" THEN ToUni(d)[c] ELSE IF Diff(d)[c] # "" THEN Diff(d)[c] ELSE PristineEnc["WinAnsi"][c],
+  IF o = 5 THEN [text |-> IF ToUni(d)[c] # "" THEN ToUni(d)[c]
+                           ELSE LET t == ApplyDiffs(PristineEnc["WinAnsi"], DiffSeq(d)) IN IF t[c] = "" THEN "cid?" ELSE t[c],
                  w |-> Widths(d)[c]]
   ELSE LET cid == PristineCMap(CMapOf(d))[c] IN
        [text |-> IF ToUni0(d, o)[c] # "" THEN ToUni0(d, o)[c]
@@ -167,7 +179,7 @@ NoFonts == [o \in FontObjs |-> NoFont]
 NoD9 == [dec |-> 0, tu |-> EmptyStr]
 Free == [st |-> "free", doc |-> "", caching |-> FALSE, pages |-> {}, kind |-> "", atomic |-> FALSE,
          fonts |-> NoFonts, d9 |-> NoD9, done |-> {}, cur |-> 0, pc |-> "", todo |-> <<>>,
-         fm |-> NoFonts, bld |-> NoFont, dec |-> 0, csShared |-> FALSE, cs |-> PristineCS]
+         fm |-> NoFonts, bld |-> NoFont, dec |-> 0, dk |-> 0, csShared |-> FALSE, cs |-> PristineCS]
 
 Init == /\ base = [enc |-> PristineEnc, cs |-> PristineCS]
         /\ cmapc = [n \in CMapNames |-> [loaded |-> FALSE, tab |-> EmptyTab]]
@@ -324,17 +336,41 @@ AGetEncodingShared ==
   /\ Micro("enc") /\ ~HasDiff(Me.doc)
   /\ SetMe([Me EXCEPT !.bld.encShared = TRUE, !.bld.encName = "WinAnsi", !.pc = "touni"])
   /\ last' = NoLast /\ UNCHANGED <<base, cmapc, umapc, interned, heap, shared, running, ncalls, client, sched>>
-\* ... with Differences a copy is made first and the differences are written into the copy
+\* ... with Differences a copy is made FIRST, whatever the array holds; the entries are then applied one by one
 AGetEncodingCopyOnWrite ==
   /\ Micro("enc") /\ HasDiff(Me.doc)
-  /\ LET d == Me.doc
-         apply(t) == [c \in Codes |-> IF Diff(d)[c] # "" THEN Diff(d)[c] ELSE t[c]] IN
-     IF "EncodingNoCopy" \in Dev
-     THEN /\ base' = [base EXCEPT !.enc["WinAnsi"] = apply(@)]
-          /\ SetMe([Me EXCEPT !.bld.encShared = TRUE, !.bld.encName = "WinAnsi", !.pc = "touni"])
+  /\ IF Dev \cap {"EncodingNoCopy", "EncodingLazyCopy"} # {}
+     THEN SetMe([Me EXCEPT !.bld.encShared = TRUE, !.bld.encName = "WinAnsi", !.pc = "diff", !.dk = 1])
+     ELSE SetMe([Me EXCEPT !.bld.encShared = FALSE, !.bld.encName = "WinAnsi", !.bld.encOwn = base.enc["WinAnsi"],
+                           !.pc = "diff", !.dk = 1])
+  /\ last' = NoLast /\ UNCHANGED <<base, cmapc, umapc, interned, heap, shared, running, ncalls, client, sched>>
+DiffEntry == DiffSeq(Me.doc)[Me.dk]
+DiffNext  == IF Me.dk = Len(DiffSeq(Me.doc)) THEN "touni" ELSE "diff"
+\* cid2unicode[cid] = name2unicode(name): the name has a Unicode value - ASSIGN
+ADifferencesAssign ==
+  /\ Micro("diff") /\ DiffEntry[2] # "-"
+  /\ LET c == DiffEntry[1]  v == DiffEntry[2] IN
+     IF Me.bld.encShared /\ "EncodingLazyCopy" \in Dev
+     THEN \* the lazy copy happens now, at the first entry that changes something
+          /\ base' = base
+          /\ SetMe([Me EXCEPT !.bld.encShared = FALSE, !.bld.encOwn = [base.enc["WinAnsi"] EXCEPT ![c] = v],
+                              !.dk = @ + 1, !.pc = DiffNext])
+     ELSE IF Me.bld.encShared
+     THEN /\ base' = [base EXCEPT !.enc["WinAnsi"][c] = v]
+          /\ SetMe([Me EXCEPT !.dk = @ + 1, !.pc = DiffNext])
      ELSE /\ base' = base
-          /\ SetMe([Me EXCEPT !.bld.encShared = FALSE, !.bld.encName = "WinAnsi", !.bld.encOwn = apply(base.enc["WinAnsi"]),
-                              !.pc = "touni"])
+          /\ SetMe([Me EXCEPT !.bld.encOwn[c] = v, !.dk = @ + 1, !.pc = DiffNext])
+  /\ last' = NoLast /\ UNCHANGED <<cmapc, umapc, interned, heap, shared, running, ncalls, client, sched>>
+\* except KeyError: cid2unicode.pop(cid, None): the name has no Unicode value - the code is REMOVED from the table the
+\* font is going to use (the copy; under a deviation that has not copied yet: the process-wide table)
+ADifferencesPop ==
+  /\ Micro("diff") /\ DiffEntry[2] = "-"
+  /\ LET c == DiffEntry[1] IN
+     IF Me.bld.encShared
+     THEN /\ base' = [base EXCEPT !.enc["WinAnsi"][c] = ""]
+          /\ SetMe([Me EXCEPT !.dk = @ + 1, !.pc = DiffNext])
+     ELSE /\ base' = base
+          /\ SetMe([Me EXCEPT !.bld.encOwn[c] = "", !.dk = @ + 1, !.pc = DiffNext])
   /\ last' = NoLast /\ UNCHANGED <<cmapc, umapc, interned, heap, shared, running, ncalls, client, sched>>
 
 LoadCMap(n) == [cmapc EXCEPT ![n] = [loaded |-> TRUE, tab |-> PristineCMap(n)]]
@@ -388,7 +424,8 @@ AFontCacheFill ==
 \* what a font shows for a code NOW (fonts hold references into the shared tables, so this reads the current process state)
 GlyphText(f, c) ==
   IF f.kind = "simple"
-  THEN IF f.touni[c] # "" THEN f.touni[c] ELSE IF f.encShared THEN base.enc[f.encName][c] ELSE f.encOwn[c]
+  THEN IF f.touni[c] # "" THEN f.touni[c]
+       ELSE LET v == IF f.encShared THEN base.enc[f.encName][c] ELSE f.encOwn[c] IN IF v = "" THEN "cid?" ELSE v
   ELSE IF f.touni[c] # "" THEN f.touni[c]
   ELSE IF f.garbled THEN "cid?"
   ELSE LET cid == cmapc[f.cmap].tab[c]
@@ -439,7 +476,7 @@ Sched == \/ \E d \in Docs, c \in Cachings, ps \in PageSets : Open(d, c, ps) \/ \
          \/ \E n \in CMapNames : UseCMap(n)
 Step  == \/ ADocOpen \/ APageStart \/ AInitColorSpacesCopy
          \/ AFontCacheHit \/ AFontMiss \/ AGetFontSpec \/ AGetObjParsed \/ ADecipherAllInPlace \/ ACopyDescendantSpec
-         \/ AGetEncodingShared \/ AGetEncodingCopyOnWrite \/ AParseToUnicode
+         \/ AGetEncodingShared \/ AGetEncodingCopyOnWrite \/ ADifferencesAssign \/ ADifferencesPop \/ AParseToUnicode
          \/ ACMapCacheFill \/ ACMapCacheHit \/ AUMapCacheFill \/ AUMapCacheHit
          \/ AResolveAllInPlace \/ AFontCacheFill \/ ARender
          \/ AUseCMapCopy \/ AAddCode2Cid
@@ -465,7 +502,7 @@ CMapCacheSound == /\ \A n \in CMapNames : cmapc[n].loaded => cmapc[n].tab = Pris
 DecipheredOnce == \A s \in 1..MaxLive : calls[s].d9.dec \in {0, 1}
 \* a cached object is what parsing the file gives: nothing was written into it
 CachedObjectsAsParsed == \A s \in 1..MaxLive : calls[s].d9.tu = EmptyStr
-\* the shared base tables never change
+\* the shared base tables never change: no entry is assigned, none is removed
 SharedTablesImmutable == [][base' = base]_vars
 \* caches only grow: an entry, once present, is never modified; interned names keep their identity
 IsPrefix(a, b) == Len(a) <= Len(b) /\ \A i \in 1..Len(a) : a[i] = b[i]
